@@ -1302,9 +1302,10 @@ def normalize(repo: Repo, ci: Optional[ClassInfo], fn: ast.FunctionDef, sf: Opti
                 out = _Rename(env).visit(out)
                 ast.fix_missing_locations(out)
                 number(out)
-    if any(isinstance(n, ast.Assign) and len(n.targets) == 1 and isinstance(n.targets[0], (ast.Tuple, ast.List))
-           and (isinstance(n.value, (ast.Tuple, ast.List)) or (isinstance(n.value, ast.Call) and norm(n.value.func) == "divmod"))
-           for n in ast.walk(out)):
+    if any(isinstance(n, ast.Assign) and len(n.targets) == 1 and (
+            (isinstance(n.targets[0], (ast.Tuple, ast.List)) and (isinstance(n.value, (ast.Tuple, ast.List))
+                                                                  or (isinstance(n.value, ast.Call) and norm(n.value.func) == "divmod")))
+            or (isinstance(n.targets[0], ast.Name) and isinstance(n.value, ast.Tuple))) for n in ast.walk(out)):
         out = split_tuple_assigns(out)
     if any(isinstance(n, ast.Attribute) and n.attr in ("pack", "unpack", "unpack_from", "size") for n in ast.walk(out)) or \
             any(isinstance(n, ast.Call) and isinstance(n.func, (ast.Name, ast.Subscript)) for n in ast.walk(out)):
@@ -1738,6 +1739,15 @@ def split_tuple_assigns(fn: ast.FunctionDef) -> ast.FunctionDef:
                             setattr(a, k, val)
                     out.append(a)
                 return out
+            # pair = a, b  with `pair` only ever read as pair[0] / pair[1]:   pair__0 = a; pair__1 = b
+            if len(node.targets) == 1 and isinstance(node.targets[0], ast.Name) and isinstance(node.value, ast.Tuple) \
+                    and node.targets[0].id in indexed_only and not any(isinstance(x, ast.Starred) for x in node.value.elts) \
+                    and indexed_only[node.targets[0].id] < len(node.value.elts):
+                nm = node.targets[0].id
+                out = []
+                for i, v in enumerate(node.value.elts):
+                    out.append(ast.copy_location(ast.Assign(targets=[ast.Name(id=f"{nm}__{i}", ctx=ast.Store())], value=v), node))
+                return out
             # q, r = divmod(x, k)   reads as   q = x // k; r = x % k      (x a plain name or attribute: evaluated twice is the same)
             if len(node.targets) == 1 and isinstance(node.targets[0], (ast.Tuple, ast.List)) and len(node.targets[0].elts) == 2 \
                     and isinstance(node.value, ast.Call) and norm(node.value.func) == "divmod" and len(node.value.args) == 2 \
@@ -1749,9 +1759,34 @@ def split_tuple_assigns(fn: ast.FunctionDef) -> ast.FunctionDef:
                 return [q, r]
             return node
 
+        def visit_Subscript(self, node):
+            node = self.generic_visit(node)
+            if isinstance(node.value, ast.Name) and node.value.id in indexed_only and isinstance(node.slice, ast.Constant) and isinstance(node.ctx, ast.Load):
+                return ast.copy_location(ast.Name(id=f"{node.value.id}__{node.slice.value}", ctx=ast.Load()), node)
+            return node
+
         def visit_Lambda(self, node):
             return node
     new = copy.deepcopy(fn)
+    # once-bound locals holding a tuple display that are read only through constant subscripts: name -> highest index
+    stores: Dict[str, int] = {}
+    for n in ast.walk(new):
+        if isinstance(n, ast.Name) and isinstance(n.ctx, (ast.Store, ast.Del)):
+            stores[n.id] = stores.get(n.id, 0) + 1
+    sub_loads: Dict[str, List[int]] = {}
+    plain_loads: Set[str] = set()
+    subscripted = {id(n.value) for n in ast.walk(new) if isinstance(n, ast.Subscript) and isinstance(n.value, ast.Name)
+                   and isinstance(n.slice, ast.Constant) and isinstance(n.slice.value, int) and n.slice.value >= 0 and isinstance(n.ctx, ast.Load)}
+    for n in ast.walk(new):
+        if isinstance(n, ast.Subscript) and id(n.value) in subscripted:
+            sub_loads.setdefault(n.value.id, []).append(n.slice.value)
+    for n in ast.walk(new):
+        if isinstance(n, ast.Name) and isinstance(n.ctx, ast.Load) and id(n) not in subscripted:
+            plain_loads.add(n.id)
+    tuple_defs = {n.targets[0].id for n in ast.walk(new) if isinstance(n, ast.Assign) and len(n.targets) == 1 and isinstance(n.targets[0], ast.Name)
+                  and isinstance(n.value, ast.Tuple)}
+    params_ = {a.arg for a in new.args.args + new.args.kwonlyargs}
+    indexed_only: Dict[str, int] = {k: max(v) for k, v in sub_loads.items() if k in tuple_defs and stores.get(k) == 1 and k not in plain_loads and k not in params_}
     X().visit(new)
     ast.fix_missing_locations(new)
     number(new)
